@@ -215,17 +215,21 @@ theorem mod_n_sub_eq (a b : Nat) (ha : a < N) (hb : b ≤ N) : mod_n_sub a b = (
   · simp only [if_pos h1]; omega
   · simp only [if_neg h1]; omega
 
-theorem mod_n_from_hash_panic_iff (ha : List UInt8) : mod_n_from_hash ha = .panic ↔ ha.length < 40 := by
-  simp only [mod_n_from_hash]; split <;> simp_all
-
-theorem mod_n_from_hash_ok (ha : List UInt8) (h : 40 ≤ ha.length) :
-    ∃ r, mod_n_from_hash ha = .ok r ∧ r < 2 ^ 256 := by
+/-- the fixed code: no input length panics any more -/
+theorem mod_n_from_hash_total (ha : List UInt8) : ∃ r, mod_n_from_hash ha = .ok r ∧ r < 2 ^ 256 := by
   simp only [mod_n_from_hash]
-  rw [if_neg (by omega)]
   exact ⟨_, rfl, mod_n_add_lt _ _⟩
 
+theorem mod_n_from_hash_ok (ha : List UInt8) (_h : 40 ≤ ha.length) :
+    ∃ r, mod_n_from_hash ha = .ok r ∧ r < 2 ^ 256 := mod_n_from_hash_total ha
+
+theorem mod_n_from_hash_not_panic (ha : List UInt8) : mod_n_from_hash ha ≠ .panic := by
+  obtain ⟨r, h, _⟩ := mod_n_from_hash_total ha
+  rw [h]; exact fun h => nomatch h
+
 theorem mod_n_from_hash_not_err (ha : List UInt8) (e : String) : mod_n_from_hash ha ≠ .err e := by
-  simp only [mod_n_from_hash]; split <;> simp
+  obtain ⟨r, h, _⟩ := mod_n_from_hash_total ha
+  rw [h]; exact fun h => nomatch h
 
 theorem hash1_ok (id : List UInt8) (hid : UInt8) : ∃ r, sm9_u256_hash1 id hid = .ok r ∧ r < 2 ^ 256 := by
   simp only [sm9_u256_hash1]
